@@ -1,4 +1,7 @@
 import FormulaicVerif.Proofs.C02Pipeline
+import FormulaicVerif.Proofs.C02NestedPipeline
+import FormulaicVerif.Proofs.C02Encode
+import FormulaicVerif.Proofs.C02Order
 /-! # C02 — Every model-matrix column holds exactly the product its name denotes
 
 Property theorems only (helper lemmas: `Proofs/C02Columns.lean`, `Proofs/C02Pipeline.lean`,
@@ -245,5 +248,466 @@ theorem label_string_faithful (cfg : Config) (rs : List TermResult)
 /-- non-vacuity: in the demo matrix no printed part contains a colon -/
 example : ∀ p ∈ [(⟨"A", some ⟨"a", true⟩, false⟩ : Part), ⟨"x", none, false⟩, ⟨"A", some ⟨"b", true⟩, true⟩],
     ':' ∉ (printedPart demoCache p).toList := by decide +kernel
+
+/-! ## Factor values of any shape
+
+The same six statements over `Model/NestedMatrix.lean` + `Model/FactorEncode.lean`, the model the
+`matrix` / `shape-error` / `encode` streams of the C02 check run: a factor may evaluate to a nested
+dict, a data frame, a 2-d array, a `FactorValues` dict with its own formats and drop field, or
+pre-encoded values; `as_columns`, `map_dict`, the metadata rules, the drop-field step and the
+recursive flattening are computed by the model. A structural label part is `(factor, key path,
+reduced)`; `NamesLeaf c p name col` says that `col` is the leaf at that path of the factor's encoded
+value and that the formats on the path print it as `name` (`Spec/NestedMatrix.lean`). -/
+section Nested
+open FormulaicVerif.Model.Nest FormulaicVerif.Spec.Nest FormulaicVerif.Proofs.C02N
+
+/-! ### a concrete instance: `1 + A + 2:A:nest(x)` with `nest(x) = {"a": {"p": x, "q": 2x}, "b": x}` -/
+
+def mdNum : Meta := Meta.default
+def rA : RFactor :=
+  { expr := "A", present := true, kind := .categorical, md := { Meta.default with spansIntercept := true },
+    raw := .cat [⟨"a", true⟩, ⟨"b", true⟩] [some 0, some 1], ext := none }
+def nestVal : Val :=
+  .dict (.cons ⟨"a", true⟩ (.dict (.cons ⟨"p", true⟩ (.col [3, 5]) (.cons ⟨"q", true⟩ (.col [6, 10]) .nil)) none)
+    (.cons ⟨"b", true⟩ (.col [3, 5]) .nil)) (some mdNum)
+def rNest : RFactor :=
+  { expr := "nest(x)", present := true, kind := .numerical, md := mdNum, raw := .val nestVal, ext := none }
+def rConst (e : String) (v : Rat) : RFactor :=
+  { expr := e, present := true, kind := .constant v, md := mdNum, raw := .val (.col []), ext := none }
+def ndemoCache : RCache := [rConst "1" 1, rConst "2" 2, rA, rNest]
+def ndemoCfg (efr : Bool) : NConfig :=
+  { cache := ndemoCache, terms := [["1"], ["A"], ["2", "A", "nest(x)"]], ensureFullRank := efr,
+    clusterByNumerical := false, variant := .fast, nrows := 2 }
+
+/-- the demo matrix: names `nest(x)[a][p]`, Kronecker order with the first factor fastest, scale 2 -/
+example : ((nbuildMatrix (ndemoCfg true) false).toOption.map (·.map (fun e => (e.name, e.col)))) = some
+    [("Intercept", [1, 1]), ("A[T.b]", [0, 1]),
+     ("A[a]:nest(x)[a][p]", [6, 0]), ("A[b]:nest(x)[a][p]", [0, 10]),
+     ("A[a]:nest(x)[a][q]", [12, 0]), ("A[b]:nest(x)[a][q]", [0, 20]),
+     ("A[a]:nest(x)[b]", [6, 0]), ("A[b]:nest(x)[b]", [0, 10])] := by decide +kernel
+
+/-- C02.5 (any shape)  Every scoped term produced for a term carries exactly the term's literal scale. -/
+theorem nested_scale_preserved (c : RCache) (efr : Bool) (spanned : List ST) (ts : List MTerm)
+    (res : List (MTerm × List ST)) (h : getScopedTerms (toCache c) efr spanned ts = .ok res)
+    (t : MTerm) (sts : List ST) (hx : (t, sts) ∈ res) (st : ST) (hst : st ∈ sts) :
+    ∃ fs, presentFactors c t = .ok fs ∧ st.scale = rliteralScale fs := by
+  obtain ⟨efs, he, hs⟩ := scale_preserved (toCache c) efr spanned ts res h t sts hx st hst
+  obtain ⟨fs, h1, h2, _, _⟩ := evaledFactors_toCache he
+  exact ⟨fs, h1, by rw [hs, h2]; rfl⟩
+
+/-- C02.1 (any shape)  Every column of the matrix belongs to a term `t` of the formula; each part of
+its structural label names a leaf column of that factor's encoded value (`NamesLeaf`); the column's
+name is `Intercept` for the empty label and otherwise the `:`-join of the names those leaves print
+as (`factor[key][key]…` under the formats on the path); and row by row the column holds `t`'s
+literal scale times the product of the named leaf columns.
+(`hlen`: every encoded leaf column has one entry per row.) -/
+theorem nested_column_is_product (cfg : NConfig) (asDict : Bool) (out : List NEntry)
+    (h : nbuildMatrix cfg asDict = .ok out)
+    (hlen : ∀ p name col, NamesLeaf cfg.cache p name col → col.length = cfg.nrows)
+    (e : NEntry) (he : e ∈ out) :
+    ∃ t ∈ cfg.terms, ∃ fs, presentFactors cfg.cache t = .ok fs ∧
+      ∃ leaves : List (String × Col), leaves.length = e.parts.length ∧
+        (∀ pl ∈ e.parts.zip leaves, NamesLeaf cfg.cache pl.1 pl.2.1 pl.2.2) ∧
+        e.name = (if e.parts = [] then "Intercept" else joinColon (leaves.map (·.1))) ∧
+        e.col.length = cfg.nrows ∧
+        ∀ i, i < cfg.nrows → e.col.getD i 0 = rliteralScale fs * rowProd (leaves.map (·.2)) i := by
+  obtain ⟨rs, hrs, r, hr, her⟩ := nbuildMatrix_mem h he
+  obtain ⟨hterm, ⟨sp, sp', hsc⟩, _⟩ := ntermResult_spec hrs hr
+  obtain ⟨efs, hefs, _, _, hscale⟩ := scopeTerm_spec hsc
+  obtain ⟨fs, hfs, hmap, _, _⟩ := evaledFactors_toCache hefs
+  refine ⟨r.term, hterm, fs, hfs, ?_⟩
+  obtain ⟨st, hst, hcase⟩ := nentry_provenance hrs hr her
+  have hs : st.scale = rliteralScale fs := by
+    unfold rliteralScale; rw [← hmap, ← scaleOf_eq_literalScale]; exact hscale st hst
+  rcases hcase with ⟨_, rfl⟩ | ⟨_, fss, henc, hne, p, hp, rfl⟩
+  · refine ⟨[], rfl, by simp, by simp, ?_⟩
+    have := smul_colProd_spec cfg.nrows st.scale [] (by simp)
+    simp only [colProd] at this
+    rw [← hs]
+    simpa using this
+  · have hsound := nkron_items_sound henc hp
+    have hpn := ne_nil_of_mem_kron hne hp
+    refine ⟨p.map (fun it => (it.name, it.col)), by simp [nentryOf], ?_, ?_, ?_⟩
+    · intro pl hpl
+      simp only [nentryOf, List.zip_map, List.mem_map] at hpl
+      obtain ⟨⟨a, b⟩, hab, rfl⟩ := hpl
+      have : a = b := mem_zip_self hab
+      subst this
+      exact hsound a (List.of_mem_zip hab).1
+    · simp only [nentryOf, List.map_eq_nil_iff, hpn, if_false, List.map_map]
+      rfl
+    · have hl : ∀ col ∈ p.map (·.col), col.length = cfg.nrows := by
+        intro col hcol
+        obtain ⟨it, hit, rfl⟩ := List.mem_map.mp hcol
+        exact hlen _ _ _ (hsound it hit)
+      have := smul_colProd_spec cfg.nrows st.scale (p.map (·.col)) hl
+      simp only [nentryOf, List.map_map]
+      rw [← hs]
+      exact this
+
+/-- C02.1b (any shape)  A column with an empty structural label is the intercept. -/
+theorem nested_intercept_column (cfg : NConfig) (rs : List NTermResult) (h : nbuildStructure cfg = .ok rs)
+    (r : NTermResult) (hr : r ∈ rs) (e : NEntry) (he : e ∈ r.cols) (hp : e.parts = []) :
+    e.name = "Intercept" ∧
+    ∃ fs, presentFactors cfg.cache r.term = .ok fs ∧
+      e.col = Col.smul (rliteralScale fs) (Col.ones cfg.nrows) ∧
+      (rliteralScale fs = 1 → e.col = List.replicate cfg.nrows 1) := by
+  obtain ⟨_, ⟨sp, sp', hsc⟩, _⟩ := ntermResult_spec h hr
+  obtain ⟨efs, hefs, _, _, hscale⟩ := scopeTerm_spec hsc
+  obtain ⟨fs, hfs, hmap, _, _⟩ := evaledFactors_toCache hefs
+  obtain ⟨st, hst, hcase⟩ := nentry_provenance h hr he
+  have hs : st.scale = rliteralScale fs := by
+    unfold rliteralScale; rw [← hmap, ← scaleOf_eq_literalScale]; exact hscale st hst
+  rcases hcase with ⟨_, rfl⟩ | ⟨_, fss, _, hne, p, hpk, rfl⟩
+  · refine ⟨rfl, fs, hfs, by rw [hs], ?_⟩
+    intro h1
+    simp only [hs, h1, Col.smul, Col.ones, List.map_replicate, Rat.one_mul]
+  · exfalso
+    have := ne_nil_of_mem_kron hne hpk
+    simp only [nentryOf, List.map_eq_nil_iff] at hp
+    exact this hp
+
+/-- C02.2 (any shape)  The pandas / narwhals fast path returns exactly what the base
+`_get_columns_for_term` returns, for every list of (possibly multi-column) factor encodings. -/
+theorem nested_fastpath_eq_base (factors : List (List NItem)) (scale : Rat) :
+    ncolumnsFast factors scale = ncolumnsBase factors scale :=
+  ncolumnsFast_eq_base factors scale
+
+/-- C02.3 (any shape)  With rank reduction disabled the matrix is, term by term in (clustered)
+formula order, the complete row-wise Kronecker product of the full encodings of the term's factors
+that have values — each factor contributing ALL the columns of its (possibly nested, multi-column)
+encoding in flattening order, the first factor varying fastest — times the literal scale; a term
+with values but no data factor gives the intercept; a term none of whose factors has values gives
+nothing. -/
+theorem nested_kron_full (cfg : NConfig) (hefr : cfg.ensureFullRank = false)
+    (hwf : ∀ t ∈ cfg.terms, t.Nodup)
+    (rs : List NTermResult) (h : nbuildStructure cfg = .ok rs) :
+    (∃ terms, clusterTerms (toCache cfg.cache) cfg.clusterByNumerical cfg.terms = .ok terms ∧
+      rs.map (·.term) = terms) ∧
+    ∀ r ∈ rs, ∃ fs, presentFactors cfg.cache r.term = .ok fs ∧
+      (fs = [] → r.cols = []) ∧
+      (fs ≠ [] → nonConstantR fs = [] →
+        r.cols = [⟨"Intercept", [], Col.smul (rliteralScale fs) (Col.ones cfg.nrows)⟩]) ∧
+      (nonConstantR fs ≠ [] → ∃ encs, nfullEncodings (nonConstantR fs) = .ok encs ∧
+        r.cols = ndictOfList ((kron encs).map (nentryOf cfg.nrows (rliteralScale fs)))) := by
+  constructor
+  · obtain ⟨terms, scp, hc, hg, hb⟩ := nbuildStructure_spec h
+    refine ⟨terms, hc, ?_⟩
+    have h1 := (nbuildTerms_spec hb).1
+    have g1 := (getScopedTerms_spec hg).1
+    rw [← g1, ← h1, List.map_map]
+    rfl
+  · intro r hr
+    obtain ⟨hterm, ⟨sp, sp', hsc⟩, hcols⟩ := ntermResult_spec h hr
+    obtain ⟨efs, hefs, h0, h1, _⟩ := scopeTerm_spec hsc
+    obtain ⟨fs, hfs, hmap, hget, hsub⟩ := evaledFactors_toCache hefs
+    have hnd : (efs.map (·.expr)).Nodup := by
+      rw [hmap, List.map_map]
+      exact hsub.nodup (hwf _ hterm)
+    have hfac := fullScoped_factors hnd
+    have hscale : (fullScoped efs).scale = rliteralScale fs := by
+      unfold rliteralScale; rw [← hmap]; exact scaleOf_eq_literalScale efs
+    have hnc : nonConstant efs = (nonConstantR fs).map toEvaled := by
+      rw [hmap]; exact nonConstant_map_toEvaled fs
+    refine ⟨fs, hfs, ?_, ?_, ?_⟩
+    · intro he
+      have : efs = [] := by rw [hmap, he]; rfl
+      rw [h0 this] at hcols
+      simpa [ntermColumns] using hcols.symm
+    · intro hne hncR
+      have hne' : efs ≠ [] := by
+        intro e0; rw [hmap] at e0; exact hne (List.map_eq_nil_iff.mp e0)
+      have hsts := h1 hne' hefr
+      rw [hnc, hncR] at hfac
+      rw [hsts] at hcols
+      simp only [ntermColumns, nscopedTermColumns, hfac, List.map_nil, List.isEmpty_nil, if_true] at hcols
+      simp only [Except.ok.injEq] at hcols
+      rw [← hcols, hscale]
+      simp [ndictUpdate, ndictSet]
+    · intro hncR
+      have hne' : efs ≠ [] := by
+        intro e0; rw [hmap] at e0
+        have : fs = [] := List.map_eq_nil_iff.mp e0
+        rw [this] at hncR; exact hncR rfl
+      have hsts := h1 hne' hefr
+      rw [hsts] at hcols
+      simp only [ntermColumns] at hcols
+      cases hs : nscopedTermColumns cfg.cache cfg.variant cfg.nrows (fullScoped efs) with
+      | error x => simp [hs] at hcols
+      | ok es =>
+        simp only [hs, Except.ok.injEq] at hcols
+        rcases nscopedTermColumns_spec hs with ⟨hf0, _⟩ | ⟨_, fss, henc, hes⟩
+        · rw [hfac, hnc] at hf0
+          exact absurd (List.map_eq_nil_iff.mp (List.map_eq_nil_iff.mp hf0)) hncR
+        · have hall : ∀ f ∈ nonConstantR fs, cfg.cache.get f.expr = .ok f := by
+            intro f hf
+            unfold nonConstantR at hf
+            exact hget f (List.mem_filter.mp hf).1
+          rw [hfac, hnc, List.map_map] at henc
+          have henc' : nencodeFactors cfg.cache ((nonConstantR fs).map (fun f => ⟨f.expr, false⟩)) = .ok fss := henc
+          rw [nencodeFactors_full hall] at henc'
+          refine ⟨fss, henc', ?_⟩
+          rw [← hcols, hes, hscale]
+          simp only [ndictOfList]
+          generalize (kron fss).map (nentryOf cfg.nrows (rliteralScale fs)) = l
+          exact ndictUpdate_ndictUpdate_nil l
+
+/-- C02.3b  The property's own wording, from the data: with rank reduction disabled, for a term
+whose data factors are categorical columns and numerical single columns (`PlainFactor`,
+`dataEncoding`), the emitted columns are the dictionary of the complete row-wise Kronecker product of
+`encs`, where `encs` lists per factor, in term order, ONE INDICATOR PER LEVEL IN LEVEL ORDER
+(`factor[level]`) for a categorical column and the column itself for a numerical one — the first
+factor varying fastest, every column scaled by the term's literal scale and named by the `:`-join of
+the chosen names. -/
+theorem kron_full_from_data (cfg : NConfig) (hefr : cfg.ensureFullRank = false)
+    (hwf : ∀ t ∈ cfg.terms, t.Nodup) (rs : List NTermResult) (h : nbuildStructure cfg = .ok rs)
+    (r : NTermResult) (hr : r ∈ rs) :
+    ∃ fs, presentFactors cfg.cache r.term = .ok fs ∧
+      (nonConstantR fs ≠ [] →
+        (∀ f ∈ nonConstantR fs, PlainFactor f ∧ (dataEncoding f).isSome = true) →
+        ∃ encs, (nonConstantR fs).map dataEncoding = encs.map some ∧
+          r.cols = ndictOfList ((kron encs).map (nentryOf cfg.nrows (rliteralScale fs)))) := by
+  obtain ⟨fs, h1, _, _, h4⟩ := (nested_kron_full cfg hefr hwf rs h).2 r hr
+  refine ⟨fs, h1, ?_⟩
+  intro hne hplain
+  obtain ⟨encs, he, hcols⟩ := h4 hne
+  obtain ⟨encs', he', hd⟩ := nfullEncodings_of_data hplain
+  rw [he] at he'
+  simp only [Except.ok.injEq] at he'
+  subst he'
+  exact ⟨encs, hd, hcols⟩
+
+/-- non-vacuity: in the demo instance the factors `A` and a plain column satisfy the hypotheses -/
+example : PlainFactor rA ∧ (dataEncoding rA).isSome = true :=
+  ⟨⟨rfl, rfl, rfl, by show ([(⟨"a", true⟩ : Field), ⟨"b", true⟩].map (·.text)).Nodup; decide⟩, rfl⟩
+
+
+/-- non-vacuity: the hypotheses of `nested_kron_full` hold on the demo instance, whose last term is
+the full Kronecker product of `A` (2 columns) and `nest(x)` (3 columns, flattening order) -/
+example : (ndemoCfg false).ensureFullRank = false ∧ ∀ t ∈ (ndemoCfg false).terms, t.Nodup := by decide
+
+example : ((nbuildStructure (ndemoCfg false)).toOption.map (·.map (·.cols.map (·.name)))) =
+    some [["Intercept"], ["A[a]", "A[b]"],
+      ["A[a]:nest(x)[a][p]", "A[b]:nest(x)[a][p]", "A[a]:nest(x)[a][q]", "A[b]:nest(x)[a][q]",
+       "A[a]:nest(x)[b]", "A[b]:nest(x)[b]"]] := by decide +kernel
+
+/-- C02.4 (any shape)  When no printed leaf name contains a `:`, a column's name determines the
+list of leaf names it was joined from: two columns of the matrix with the same name are labelled by
+leaves that print alike. (That the names of one factor's leaves are pairwise distinct is a property
+of its keys and formats; see `default_format_name` for the default format.) -/
+theorem nested_label_string_faithful (cfg : NConfig) (rs : List NTermResult)
+    (h : nbuildStructure cfg = .ok rs) (r r' : NTermResult) (hr : r ∈ rs) (hr' : r' ∈ rs)
+    (e e' : NEntry) (he : e ∈ r.cols) (he' : e' ∈ r'.cols) (hp : e.parts ≠ []) (hp' : e'.parts ≠ []) :
+    ∃ names names' : List String, names.length = e.parts.length ∧ names'.length = e'.parts.length ∧
+      (∀ pn ∈ e.parts.zip names, ∃ col, NamesLeaf cfg.cache pn.1 pn.2 col) ∧
+      (∀ pn ∈ e'.parts.zip names', ∃ col, NamesLeaf cfg.cache pn.1 pn.2 col) ∧
+      e.name = joinColon names ∧ e'.name = joinColon names' ∧
+      ((∀ n ∈ names ++ names', ':' ∉ n.toList) → e.name = e'.name → names = names') := by
+  have key : ∀ r ∈ rs, ∀ e ∈ r.cols, e.parts ≠ [] →
+      ∃ names : List String, names ≠ [] ∧ names.length = e.parts.length ∧
+        (∀ pn ∈ e.parts.zip names, ∃ col, NamesLeaf cfg.cache pn.1 pn.2 col) ∧ e.name = joinColon names := by
+    intro r hr e he hp
+    obtain ⟨st, hst, hcase⟩ := nentry_provenance h hr he
+    rcases hcase with ⟨_, rfl⟩ | ⟨_, fss, henc, hne, p, hpk, rfl⟩
+    · exact absurd rfl hp
+    · have hsound := nkron_items_sound henc hpk
+      have hpn := ne_nil_of_mem_kron hne hpk
+      refine ⟨p.map (·.name), by simpa using hpn, by simp [nentryOf], ?_, rfl⟩
+      intro pn hpn'
+      simp only [nentryOf, List.zip_map, List.mem_map] at hpn'
+      obtain ⟨⟨a, b⟩, hab, rfl⟩ := hpn'
+      have : a = b := mem_zip_self hab
+      subst this
+      exact ⟨a.col, hsound a (List.of_mem_zip hab).1⟩
+  obtain ⟨names, hn0, hn1, hn2, hn3⟩ := key r hr e he hp
+  obtain ⟨names', hn0', hn1', hn2', hn3'⟩ := key r' hr' e' he' hp'
+  refine ⟨names, names', hn1, hn1', hn2, hn2', hn3, hn3', ?_⟩
+  intro hcolon heq
+  rw [hn3, hn3'] at heq
+  exact joinColon_inj hn0 hn0' (fun a ha => hcolon a (by simp [ha])) (fun a ha => hcolon a (by simp [ha])) heq
+
+/-! ### the encoder stages (`_encode_evaled_factor`, `_flatten_encoded_evaled_factor`) -/
+
+/-- C02.6  What `_encode_evaled_factor` returns for a factor (any shape, either rank setting): every
+`(name, column)` of the flattened dict is a leaf of the factor's encoded value tree, labelled with the
+key path that leads to it, and `name` is what the format templates of the dicts on that path print
+(`Leaf`): `format.format(name=<name so far>, field=<key>)` level by level. -/
+theorem encode_items_are_leaves (f : RFactor) (r : Bool) (items : List NItem)
+    (h : encodeFactor f r = .ok items) :
+    ∃ v, encodedTree f r = .ok v ∧ ∀ it ∈ items, it.part.expr = f.expr ∧ it.part.reduced = r ∧
+      Leaf v f.expr it.part.path it.name it.col :=
+  encodeFactor_sound h
+
+/-- C02.6a  …and no leaf is lost: every leaf of the encoded value contributes its printed name to what
+`_encode_evaled_factor` returns (the column kept under a name is, by C02.6, a leaf that prints so — the
+last one when several leaves print alike). So a factor's encoded columns are exactly the leaves of its
+encoded value, by name. -/
+theorem encode_names_complete (f : RFactor) (r : Bool) (items : List NItem)
+    (h : encodeFactor f r = .ok items) (v : Val) (hv : encodedTree f r = .ok v)
+    (q : List Field) (name : String) (col : Col) (hl : Leaf v f.expr q name col) :
+    ∃ it ∈ items, it.name = name :=
+  encodeFactor_complete h hv hl
+
+/-- non-vacuity: the demo factor `nest(x)` encodes to three named leaves -/
+example : ((encodeFactor rNest false).toOption.map (·.map (fun it => (it.name, it.part.path.map (·.text))))) =
+    some [("nest(x)[a][p]", ["a", "p"]), ("nest(x)[a][q]", ["a", "q"]), ("nest(x)[b]", ["b"])] := by
+  decide +kernel
+
+/-- C02.6b  Names `factor[key][key]…`: when every dict on the way uses the default template
+(`FactorValuesMetadata.format`, regenerated from the live class into `Gen.defaultFormat`), the leaf at
+key path `k₁, k₂, …` of a value printed as `name` is printed `name[k₁][k₂]…`. -/
+theorem default_format_name (v : Val) (name : String) (path : List Field) (name' : String) (col : Col)
+    (h : Leaf v name path name' col) (hd : valAllDefault v = true) : name' = bracketName name path :=
+  leaf_bracketName h hd
+
+example : valAllDefault nestVal = true := by decide +kernel
+example : bracketName "nest(x)" [⟨"a", true⟩, ⟨"q", true⟩] = "nest(x)[a][q]" := by decide +kernel
+
+/-- C02.7  A numerical factor is encoded as itself: for a numerical factor without an encoder of its
+own (not pre-encoded), the encoded value holds exactly the columns of the evaluated value
+(`as_columns(factor.values)`) — every encoded leaf is the evaluated leaf at the same key path and no key
+on that path is reserved (`__…`); every evaluated leaf with no reserved key on its path is encoded,
+except, when the factor spans the intercept and the reduced encoding is requested, those under its
+`drop_field`. (`map_dict`, the metadata re-wrapping and the drop-field step neither change nor invent
+a value.) -/
+theorem numerical_encoding_is_identity (f : RFactor) (r : Bool) (hk : f.kind = .numerical)
+    (henc : f.md.encoded = false) (hext : f.ext = none) (he : f.md.hasEncoder = false)
+    (t : Val) (h : encodedTree f r = .ok t) :
+    ∃ w, asColumns f.md f.raw = .ok w ∧
+      (∀ p c, LeafAt t p c → LeafAt w p c ∧ ∀ k ∈ p, k.hidden = false) ∧
+      (∀ p c, LeafAt w p c → (∀ k ∈ p, k.hidden = false) →
+        ((f.md.spansIntercept && r) = true → p.head? ≠ f.md.dropField) → LeafAt t p c) :=
+  FormulaicVerif.Proofs.C02N.numerical_encoding_is_identity f r hk henc hext he t h
+
+example : rNest.kind = .numerical ∧ rNest.md.encoded = false ∧ rNest.ext = none ∧ rNest.md.hasEncoder = false ∧
+    (encodedTree rNest false).toOption.isSome = true := by decide +kernel
+
+/-- C02.7b  The drop-field step on a dict with metadata: nothing happens unless the encoded value
+spans the intercept and the reduced encoding is asked for; then exactly the `drop_field` key is
+deleted (`KeyError` when absent — no result), the metadata is marked `reduced`, and from then on the
+names are printed with `format_reduced` when it is set, `format` otherwise. -/
+theorem drop_field_step (r : Bool) (es : Ents) (mm : Meta) (t : Val)
+    (h : dropStep r (.dict es (some mm)) = .ok t) :
+    ((mm.spansIntercept && r) = false ∧ t = .dict es (some mm)) ∨
+    ((mm.spansIntercept && r) = true ∧ ∃ k es', mm.dropField = some k ∧ es.del k = some es' ∧
+      t = .dict es' (some { mm with reduced := true }) ∧
+      ({ mm with reduced := true } : Meta).getFormat = mm.formatReduced.getD mm.format) :=
+  dropStep_dict h
+
+/-- C02.8  A plain categorical column — categories `levels` (in category order), per-row codes —
+is encoded in full as ONE INDICATOR PER LEVEL, IN LEVEL ORDER, named `factor[level]`; entry `i` of the
+indicator of level number `j` is 1 when row `i` has code `j` and 0 otherwise (also for a null row).
+(`hnd`: no two levels print alike.) -/
+theorem categorical_full_encoding (f : RFactor) (levels : List Field) (codes : List (Option Nat))
+    (hraw : f.raw = .cat levels codes) (hk : f.kind = .categorical) (henc : f.md.encoded = false)
+    (hext : f.ext = none) (he : f.md.hasEncoder = false) (hnd : (levels.map (·.text)).Nodup) :
+    encodeFactor f false = .ok (levels.zipIdx.map (fun lj =>
+      ⟨f.expr ++ "[" ++ lj.1.text ++ "]", ⟨f.expr, [lj.1], false⟩, indicator codes lj.2⟩)) ∧
+    ∀ j i, (indicator codes j).getD i 0 = if codes[i]? = some (some j) then 1 else 0 := by
+  refine ⟨dummy_encode_full f levels codes hraw hk henc hext he hnd, ?_⟩
+  intro j i
+  unfold indicator
+  rw [List.getD_eq_getElem?_getD, List.getElem?_map]
+  cases hc : codes[i]? with
+  | none => simp
+  | some c => by_cases h : c = some j <;> simp [h]
+
+/-- C02.8b  Its reduced encoding (treatment coding) drops the first level and keeps the indicators of
+the others, named `factor[T.level]`. (`Gen.treatmentSpansIntercept` is read off the live class.) -/
+theorem categorical_reduced_encoding (f : RFactor) (l0 : Field) (rest : List Field) (codes : List (Option Nat))
+    (hraw : f.raw = .cat (l0 :: rest) codes) (hk : f.kind = .categorical) (henc : f.md.encoded = false)
+    (hext : f.ext = none) (he : f.md.hasEncoder = false) (hnd : ((l0 :: rest).map (·.text)).Nodup) :
+    encodeFactor f true = .ok ((rest.zipIdx 1).map (fun lj =>
+      ⟨f.expr ++ "[T." ++ lj.1.text ++ "]", ⟨f.expr, [lj.1], true⟩, indicator codes lj.2⟩)) :=
+  dummy_encode_reduced f l0 rest codes hraw hk henc hext he hnd (by decide)
+
+example : rA.raw = .cat [⟨"a", true⟩, ⟨"b", true⟩] [some 0, some 1] ∧ rA.kind = .categorical ∧
+    rA.md.encoded = false ∧ rA.ext = none ∧ rA.md.hasEncoder = false ∧
+    ([(⟨"a", true⟩ : Field), ⟨"b", true⟩].map (·.text)).Nodup := ⟨rfl, rfl, rfl, rfl, rfl, by decide⟩
+
+/-- C02.8c  What a label obeys, in terms of the DATA (either rank setting): a label part that names a
+leaf of a plain categorical column with categories `levels` is `(factor, [level], reduced)` for a level
+number `j` of the column; the leaf is the indicator of that level; it is printed `factor[level]`, or
+`factor[T.level]` in the reduced encoding, where the first level (`j = 0`) never occurs. A label part that
+names a leaf of a numerical single column has the empty key path, is the column itself and is printed as
+the factor. With `nested_column_is_product` this reads "every emitted column holds the literal scale
+times the product of the level indicators and data columns its name lists", with rank reduction on or off. -/
+theorem label_parts_in_data (c : RCache) (p : NPart) (name : String) (col : Col)
+    (h : NamesLeaf c p name col) :
+    ∃ f, c.get p.expr = .ok f ∧
+      (∀ levels codes, f.raw = .cat levels codes → f.kind = .categorical → PlainFactor f →
+        ∃ j l, levels[j]? = some l ∧ p.path = [l] ∧ col = indicator codes j ∧
+          name = p.expr ++ (if p.reduced then "[T." else "[") ++ l.text ++ "]" ∧ (p.reduced = true → j ≠ 0)) ∧
+      (∀ x, f.raw = .val (.col x) → f.kind = .numerical → PlainFactor f →
+        p.path = [] ∧ col = x ∧ name = p.expr) := by
+  obtain ⟨f, hf, v, hv, hl⟩ := h
+  have hfe : f.expr = p.expr := (RCache.get_ok hf).1
+  refine ⟨f, hf, ?_, ?_⟩
+  · intro levels codes hraw hk ⟨h1, h2, h3, h4⟩
+    simp only [hraw] at h4
+    rw [← hfe] at hl ⊢
+    exact plain_categorical_leaf f levels codes hraw hk h1 h2 h3 h4 p.reduced v hv p.path name col hl
+  · intro x hraw hk ⟨h1, h2, h3, _⟩
+    rw [← hfe] at hl ⊢
+    exact plain_numerical_leaf f x hraw hk h1 h2 h3 p.reduced v hv p.path name col hl
+
+/-- non-vacuity: in the demo cache the part `(A, [b], reduced)` names the indicator of level `b`, printed `A[T.b]` -/
+example : NamesLeaf ndemoCache ⟨"A", [⟨"b", true⟩], true⟩ "A[T.b]" [0, 1] := by
+  refine ⟨rA, rfl, ?_⟩
+  refine ⟨_, encodedTree_cat_reduced rA ⟨"a", true⟩ [⟨"b", true⟩] [some 0, some 1] rfl rfl rfl rfl rfl (by decide) (by decide), ?_⟩
+  exact Leaf.dict (.head _) (Leaf.col _ _)
+
+/-! ### term order and repeated names -/
+
+/-- C02.9  `cluster_by="numerical_factors"`: the terms are emitted regrouped by their tuple of
+numerical factors (`key t`): the groups in order of first occurrence, the terms of a group in formula
+order; nothing is lost or duplicated. With `nested_kron_full` / `nested_column_is_product` this fixes
+the column order of the clustered matrix. -/
+theorem cluster_by_numerical_order (c : Cache) (ts : List MTerm) (key : MTerm → List String)
+    (hkey : ∀ t ∈ ts, numericalKey c t = .ok (key t)) :
+    clusterTerms c true ts =
+      .ok ((firstKeys (ts.map key)).flatMap (fun k => ts.filter (fun t => key t = k))) ∧
+    clusterTerms c false ts = .ok ts :=
+  ⟨clusterTerms_eq c ts key hkey, rfl⟩
+
+/-- non-vacuity: `x:A + A + x` is reordered to `x:A + x + A` (keys `[x]`, `[]`, `[x]`) -/
+example : clusterTerms (toCache ndemoCache ++ [⟨"x", true, .numerical, false, noEncoding, noEncoding⟩]) true
+    [["x", "A"], ["A"], ["x"]] = .ok [["x", "A"], ["x"], ["A"]] := by decide +kernel
+
+/-- C02.9b  The matrix is the concatenation, in (clustered) formula order, of the terms' column blocks:
+stacked by position (`asDict = false`: pandas materializer, sparse output) nothing is merged or
+reordered; through the narwhals `{name: column}` dict the blocks are merged as C02.10 says. -/
+theorem matrix_is_concatenation (cfg : NConfig) (asDict : Bool) (out : List NEntry)
+    (h : nbuildMatrix cfg asDict = .ok out) :
+    ∃ rs terms, nbuildStructure cfg = .ok rs ∧
+      clusterTerms (toCache cfg.cache) cfg.clusterByNumerical cfg.terms = .ok terms ∧
+      rs.map (·.term) = terms ∧
+      out = (if asDict then ndictOfList (rs.flatMap (·.cols)) else rs.flatMap (·.cols)) := by
+  unfold nbuildMatrix at h
+  cases hs : nbuildStructure cfg with
+  | error x => simp [hs] at h
+  | ok rs =>
+    simp only [hs, Except.ok.injEq] at h
+    obtain ⟨terms, scp, hc, hg, hb⟩ := nbuildStructure_spec hs
+    refine ⟨rs, terms, rfl, hc, ?_, ?_⟩
+    · have h1 := (nbuildTerms_spec hb).1
+      have g1 := (getScopedTerms_spec hg).1
+      rw [← g1, ← h1, List.map_map]
+      rfl
+    · rw [← h]
+      cases asDict <;> rfl
+
+/-- C02.10  Columns that share a printed name (rank reduction off with factors whose leaves print
+alike, a data column named like an encoded level, …) go through a `{name: column}` dict: the dict
+lists the distinct names in order of first occurrence, and each name holds the LAST column of the
+list that carries it; with pairwise distinct names nothing is merged. -/
+theorem duplicate_names_dictionary (l : List NEntry) :
+    (ndictOfList l).map (·.name) = firstKeys (l.map (·.name)) ∧
+    (∀ e ∈ ndictOfList l, l.reverse.find? (fun y => y.name == e.name) = some e) ∧
+    ((l.map (·.name)).Nodup → ndictOfList l = l) :=
+  ⟨ndictOfList_names l, ndictOfList_last l, ndictOfList_of_nodup l⟩
+
+
+end Nested
 
 end FormulaicVerif.Props.C02
